@@ -47,6 +47,69 @@ CLAIMED['C20'] = dict(
     technique='differential exploration: CLI vs documented library pipeline, second-pass idempotence (Coq model of the CLI plumbing to follow)',
 )
 
+CLAIMED['C04'] = dict(
+    category='proof',
+    text='Coq theorem (closed under the global context): for EVERY tree and EVERY model the Gallina mirror of layout.interpret equals an '
+         'independently written reference reading of the notation (Spec/Reading.v, from docs/notation.rst + structures.rst): same error, or same top, '
+         'ordered triples, variable set, both alignment maps and the whole epigraph; corollaries: triple count, no-op never deinverts, orientation law, '
+         '"~" inside a string is content, Push/POP placement. The oracle compares the IMPLEMENTATION with the extracted SPEC (not with the model of interpret), '
+         'so compensating errors in decode/encode cannot hide.',
+    design_ref='DESIGN.md §5 C04',
+    note=TB + ' AlignmentMarker.from_string and the role predicates are vocabulary shared by spec and model; numbers are modelled by text and truthiness only; '
+         'quick: ~50k trees x 16 models (default, live AMR, no-op, mini-AMR, random tables), parsed + hand-built + bounded-exhaustive, incl. ill-formed trees.',
+    technique='Coq proof by nested induction on trees (interpret = reference reading) + differential correspondence + spec-vs-implementation oracle',
+)
+CLAIMED['C14'] = dict(
+    category='proof',
+    text='Coq theorems: for every tree satisfying wf_layout_tree (truthy variables, coloned roles, no :instance-of branch, pairwise distinct triples, '
+         'parseable alignments) node_contexts of the decoded graph is exactly the writing node of each triple (never unknown), get_pushed_variable is the '
+         'opened nested node, appears_inverted equals written-inverted for triples with distinct ends (marker-stack simulation over the tree); for ANY graph '
+         'with empty epidata the three diagnostics are characterised exactly and are total. Hypotheses are shown necessary by machine-checked counterexamples.',
+    design_ref='DESIGN.md §5 C14',
+    note=TB + ' totality in the model corresponds to "no KeyError/IndexError", which the harness checks on the implementation for marker-less and damaged-marker graphs; '
+         'quick: ~12k decoded wf trees (chains to depth 60, concept-less nodes, inverted re-entrancies) x {default, AMR}.',
+    technique='Coq proof (stack simulation by induction on the tree) + differential correspondence + reading-vs-implementation oracle',
+)
+CLAIMED['C08'] = dict(
+    category='proof',
+    text='Coq theorems for any alternation order containing UNEXPECTED (both shipped patterns are instances): the tokens of every line tile it '
+         '(ordered, disjoint, exact text/column/line number, gaps only the six ASCII blanks, every non-blank covered, fuel sufficient); every scanner is '
+         'sound AND complete for its declarative class language with greedy right context; each token is the first-class lexeme at its offset; line numbering '
+         'from 1 and splitting at exactly LF / CRLF / CR with an inverse (interleave) lemma; non-ASCII blanks are content.',
+    design_ref='DESIGN.md §5 C08',
+    note=TB + ' CPython re semantics for the nine patterns are modelled by hand-written scanners; tie to penman._lexer.lex is differential: quick = ALL strings '
+         'of length <= 4 over a 28-symbol alphabet x both patterns x str / list-of-lines containers (3.6M lexes, type+text+lineno+offset), thorough to length 5; '
+         'the oracle re-derives tiling and class from the implementation tokens with an independent hand-written grammar.',
+    technique='Coq proof (scanner = relational lexical grammar, tiling invariant) + bounded-exhaustive differential correspondence + independent tiling/class oracle',
+)
+
+CLAIMED['C18'] = dict(
+    category='proof',
+    text='Coq theorems on an executable model of penman/constant.py (incl. a complete recogniser of what CPython json.loads accepts) and the lexer: for EVERY '
+         'string the quoted text is exactly one STRING token under both token tables and is printable ASCII; for every string of Unicode scalar values '
+         'evaluate(quote x) = x and type = String (\\uXXXX and surrogate pairs included); evaluate/type are total (fuel proved sufficient), return int/float '
+         'exactly for a declarative JSON-number grammar (modulo the 4300-digit int limit, which yields a symbol), None exactly for empty/None, never a bool '
+         '(bare or blank-padded true/false/null are symbols), and type always agrees with the evaluated value.',
+    design_ref='DESIGN.md §5 C18',
+    note=TB + ' number VALUES are not modelled (only their kind); json/re of CPython 3.12 are modelled, not verified; adjacent lone surrogates are outside the '
+         'round-trip clause (N5, proved necessary); JSON nesting beyond the interpreter recursion limit is outside the model; quick = 0.54M differential cases '
+         '(strings <= 3 over 20 symbols, atom texts <= 4 over 25 symbols, 120k random JSON-like texts, the 4300/4301-digit boundary) + in-kernel cross-check.',
+    technique='Coq proof (escape/unescape inversion, JSON recogniser vs declarative grammar) + bounded-exhaustive differential correspondence + law oracle',
+)
+
+CLAIMED['C15'] = dict(
+    category='proof',
+    text='26 Coq theorems (closed under the global context) over an executable mirror of penman/graph.py, for ALL triple lists, tops, epidata dicts and '
+         'metadata: the three-way partition with order, edge/filter/top/set-top/re-entrancy specifications, union and difference as order-preserving set '
+         'operations with exact marker and dict-key-order behaviour, in-place = pure forms, and the set-algebra law for EVERY finite sequence of | |= - -= '
+         '(induction on the sequence). Tied to the code by a bounded-exhaustive differential run (all graphs of <= 3 triples x 4 tops, all pairs, op sequences; '
+         '~1M comparisons incl. dict order) and an independent oracle with before/after operand snapshots and a two-hash-seed union comparison.',
+    design_ref='DESIGN.md §5 C15',
+    note=TB + ' numeric atoms (0 == 0.0) and non-string roles are outside the domain; epidata statements assume distinct dict keys (shown preserved); '
+         '"operands untouched" is checked by deep snapshots on the implementation (trivial in Gallina); noted hazard that violates nothing: a|b shares marker lists with b.',
+    technique='Coq proof (filters/permutations, induction on operation sequences) + bounded-exhaustive differential correspondence + law oracle',
+)
+
 UNDER_CONSTRUCTION = {}
 
 
